@@ -560,3 +560,203 @@ def field_of(E, share, key):
 
 
 field_of.native = field.native
+
+
+# ================================================================================================ change / update / create
+# Arguments covered: ONE positional sequence of (name, value) pairs of ANY length (loop invariant) followed by 0, 1
+# or 2 keyword arguments with arbitrary distinct names (the three `cases`).  Positional dict arguments (iteration
+# over a.items()) are not modelled.
+def _setup_kwargs(E):
+    """top level only: the `**kwa` of the function under verification (the engine binds an empty dict)"""
+    if len(E.frames) != 1:
+        return
+    import re
+    m = re.search(r"\[case(\d+)\]", E.ob_prefix or "")
+    nk = int(m.group(1)) if m else 0
+    kws = {}
+    prev = []
+    for j in range(nk):
+        k = Sym(z3.Const("p_kw%d" % j, _S), "str")
+        v = Sym(z3.Const("p_kwv%d" % j, opaque_sort("fieldval")), ("opaque", "fieldval"))
+        for p_ in prev:
+            E.assume(k.t != p_.t)          # keyword names of one call are pairwise distinct
+        prev.append(k)
+        kws[k] = v
+    E.frame.env["kwa"] = kws
+
+
+def _given(E, pa, kwa, upto=None):
+    """the assignments in call order: (n, K, V) of the positional pair list (first n pairs only if upto) and the
+    keyword items"""
+    if len(pa) > 1 or (pa and not isinstance(pa[0], ListV)):
+        raise Unsupported("change/update/create with positional arguments other than one list of pairs")
+    if pa and pa[0].et is not None:
+        n = E.llen(pa[0]) if upto is None else zint(upto)
+        K, V = E.larrs(pa[0])
+    else:
+        n, K, V = z3.IntVal(0), z3.K(z3.IntSort(), z3.StringVal("")), None
+    kws = [(zstr(k), v.t) for k, v in (kwa or {}).items()] if upto is None else []
+    return n, K, V, kws
+
+
+def _rec(E, share, old=False):
+    heap = E.heap
+    if old:
+        E.heap = dict(E.heap_old)
+    try:
+        D = _view(E, share)
+        keys = E.rd_field(D, "_keys")
+        d = E.rd_field(D, "_d")
+        return E.llen(keys), E.larrs(keys)[0], E.ddom(d), E.dvals(d)[0]
+    finally:
+        E.heap = heap
+
+
+def _fields_after(E, part, share, pa, kwa, upto, first_wins):
+    """the record after the assignments, pointwise.  first_wins=False (change / update): every assignment is
+    performed, the LAST one to a name decides its value.  first_wins=True (create): only names that are not yet
+    fields are assigned, so entry fields keep their value and the FIRST assignment to a new name decides."""
+    n, K, V, kws = _given(E, pa, kwa, upto)
+    nk, ka, dom, val = _rec(E, share)
+    nk0, ka0, dom0, val0 = _rec(E, share, True)
+    c = next(E.counter)
+    j, j2, m = z3.Int("j!fa%d" % c), z3.Int("j2!fa%d" % c), z3.Int("m!fa%d" % c)
+    x = z3.Const("x!fa%d" % c, _S)
+    kwkeys = [k for k, _v in kws]
+    in_list = lambda y: z3.Exists([j2], z3.And(j2 >= 0, j2 < n, z3.Select(K, j2) == y))
+    if part == "present":        # every given name is a field afterwards
+        parts = [z3.ForAll([j], z3.Implies(z3.And(j >= 0, j < n), z3.Select(dom, z3.Select(K, j))))]
+        parts += [z3.Select(dom, k) for k in kwkeys]
+    elif part == "values":
+        kj = z3.Select(K, j)
+        if first_wins:
+            decides = z3.ForAll([j2], z3.Implies(z3.And(j2 >= 0, j2 < j), z3.Select(K, j2) != kj))
+            parts = [z3.ForAll([j], z3.Implies(z3.And(j >= 0, j < n, decides, z3.Not(z3.Select(dom0, kj))),
+                                               z3.Select(val, kj) == z3.Select(V, j)))] if V is not None else []
+            parts += [z3.Implies(z3.And(z3.Not(z3.Select(dom0, k)), z3.Not(in_list(k))), z3.Select(val, k) == v)
+                      for k, v in kws]
+            parts += [z3.ForAll([x], z3.Implies(z3.Select(dom0, x), z3.And(z3.Select(dom, x),
+                                                                          z3.Select(val, x) == z3.Select(val0, x))))]
+        else:
+            decides = z3.ForAll([j2], z3.Implies(z3.And(j2 > j, j2 < n), z3.Select(K, j2) != kj))
+            notkw = z3.And(*[kj != k for k in kwkeys]) if kwkeys else z3.BoolVal(True)
+            parts = [z3.ForAll([j], z3.Implies(z3.And(j >= 0, j < n, decides, notkw),
+                                               z3.Select(val, kj) == z3.Select(V, j)))] if V is not None else []
+            parts += [z3.Select(val, k) == v for k, v in kws]
+    elif part == "others":       # a name that was not given is a field iff it was, with the value it had
+        notgiven = z3.And(z3.ForAll([j], z3.Implies(z3.And(j >= 0, j < n), z3.Select(K, j) != x)), *[x != k for k in kwkeys])
+        parts = [z3.ForAll([x], z3.Implies(notgiven, z3.And(z3.Select(dom, x) == z3.Select(dom0, x),
+                                                            z3.Implies(z3.Select(dom0, x),
+                                                                       z3.Select(val, x) == z3.Select(val0, x)))))]
+    elif part == "order":        # the entry fields keep their positions (new fields go behind them)
+        parts = [nk >= nk0, z3.ForAll([m], z3.Implies(z3.And(m >= 0, m < nk0), z3.Select(ka, m) == z3.Select(ka0, m)))]
+    elif part == "ident":        # only names the record accepts become new fields
+        parts = [z3.ForAll([x], z3.Implies(z3.And(z3.Select(dom, x), z3.Not(z3.Select(dom0, x))), IDENT(x)))]
+    else:
+        raise Unsupported("fields_after part %r" % part)
+    return Sym(z3.And(*parts) if parts else z3.BoolVal(True), "bool")
+
+
+AFTER_PARTS = ("present", "values", "others", "order", "ident")
+
+
+@specfunc
+def separate(E, share, pa):
+    """the positional pair list is not the key list of the record's odict (lists of different element types share
+    only the engine's length array)"""
+    keys = E.rd_field(_view(E, share), "_keys")
+    return Sym(z3.And(*[a.t != keys.t for a in pa if isinstance(a, ListV)]) if pa else z3.BoolVal(True), "bool")
+
+
+separate.native = lambda share, pa: all(a is not share._data.__dict__._keys for a in pa)
+
+
+@specfunc
+def changed_fields(E, part, share, pa, kwa, _snap=None):
+    return _fields_after(E, part, share, pa, kwa, None, False)
+
+
+@specfunc
+def created_fields(E, part, share, pa, kwa, _snap=None):
+    return _fields_after(E, part, share, pa, kwa, None, True)
+
+
+@specfunc
+def change_inv(E, part, share, a, i):
+    return _fields_after(E, part, share, (a,), None, i, False)
+
+
+@specfunc
+def create_inv(E, part, share, a, i):
+    return _fields_after(E, part, share, (a,), None, i, True)
+
+
+@specfunc
+def grew(E, share, _snap=None):
+    """a field was added (the key sequence is longer than at entry)"""
+    return Sym(_rec(E, share)[0] > _rec(E, share, True)[0], "bool")
+
+
+def _n_sim(snap, pa, kwa, first_wins):
+    keys, store = list(snap["keys"]), dict(snap["store"])
+    seq = [kv for a in pa for kv in (a.items() if hasattr(a, "items") else a)] + list(kwa.items())
+    for k, v in seq:
+        if first_wins and k in store:
+            continue
+        if k not in store:
+            keys.append(k)
+        store[k] = v
+    return {"keys": keys, "store": store}
+
+
+changed_fields.native = lambda part, share, pa, kwa, snap: _n_fields_snap(share) == _n_sim(snap, pa, kwa, False)
+created_fields.native = lambda part, share, pa, kwa, snap: _n_fields_snap(share) == _n_sim(snap, pa, kwa, True)
+grew.native = lambda share, snap: len(share._data.__dict__._keys) > len(snap["keys"])
+
+
+def _mk_kw(rng, i, cex, nr):
+    import importlib
+    storing = importlib.import_module("ioflo.base.storing")
+    sh = _rnd_share(rng, storing)
+    names = _NAMES + (["_a", "1a"] if rng.random() < 0.15 else [])
+    pairs = [(rng.choice(names), rng.choice(_VALUES)) for _ in range(rng.randint(0, 4))]
+    nk = nr.case or 0
+    kws = {k: rng.choice(_VALUES) for k in rng.sample(_NAMES, nk)}
+    return {"self": sh, "pa": (pairs,) if (pairs or rng.random() < 0.5) else (), "kwa": kws}
+
+
+def _call_kw(env, nr):
+    return getattr(env["self"], nr.c.qual.split(".")[-1])(*env["pa"], **env["kwa"])
+
+
+PKW = dict(self=Ref("Share"), pa=("vararg", (List(PAIR),)))
+KW_CASES = [{}, {}, {}]          # 0, 1, 2 keyword arguments (see _setup_kwargs)
+CH_AFTER = ["changed_fields('%s', self, pa, kwa, %s)" % (p_, SNAP) for p_ in AFTER_PARTS]
+CR_AFTER = ["created_fields('%s', self, pa, kwa, %s)" % (p_, SNAP) for p_ in AFTER_PARTS]
+CH_LOOP = {2: dict(inv=[INV] + ["change_inv('%s', self, a, _i)" % p_ for p_ in AFTER_PARTS])}
+CR_LOOP = {2: dict(inv=[INV, "update == grew(self)"] + ["create_inv('%s', self, a, _i)" % p_ for p_ in AFTER_PARTS],
+                   locals={"update": BOOL})}
+KW_REPLAY = dict(make=_mk_kw, call=_call_kw, count=300)
+
+contract(FS, "Share.change", "C19", params=PKW, cases=KW_CASES, setup=_setup_kwargs, externals=EXT, requires=[INV],
+         assumes=["separate(self, pa)"],
+         loops=CH_LOOP, modifies=FIELDS,
+         ensures=[INV, NOSTAMP, "result is self"] + CH_AFTER,
+         raises={"AttributeError": [INV, NOSTAMP]}, returns=Ref("Share"), replay=KW_REPLAY,
+         note="AttributeError: a given name is neither a field nor accepted by the record (fields assigned before it "
+              "stay assigned); the stamp is unchanged on every outcome")
+
+contract(FS, "Share.update", "C19", params=PKW, cases=KW_CASES, setup=_setup_kwargs, externals=EXT, requires=[INV],
+         assumes=["separate(self, pa)"],
+         modifies=FIELDS + ["self.stamp"],
+         ensures=[INV, "result is self"] + STAMPED + CH_AFTER,
+         raises={"AttributeError": [INV, NOSTAMP]}, returns=Ref("Share"), replay=KW_REPLAY)
+
+contract(FS, "Share.create", "C19", params=PKW, cases=KW_CASES, setup=_setup_kwargs, externals=EXT, requires=[INV],
+         assumes=["separate(self, pa)"],
+         loops=CR_LOOP, modifies=FIELDS + ["self.stamp"],
+         ensures=[INV, "result is self",
+                  # stamped exactly when a new field was added
+                  "implies(grew(self, %s), %s)" % (SNAP, " and ".join("(%s)" % s_ for s_ in STAMPED)),
+                  "implies(not grew(self, %s), %s)" % (SNAP, NOSTAMP)] + CR_AFTER,
+         raises={"AttributeError": [INV, NOSTAMP]}, returns=Ref("Share"), replay=KW_REPLAY)
